@@ -1,7 +1,7 @@
 (** C06 - filter_, stop and maxlevel restrict all iterators in the same,
     compositional way.  Only statements; proofs are [exact <lemma>]. *)
 Require Import AT.Model.Base AT.Model.Rose AT.Model.Iter AT.Spec.IterSpec.
-Require AT.Proofs.IterPre AT.Proofs.IterPost AT.Proofs.IterLevel AT.Proofs.IterC05.
+Require AT.Proofs.IterPre AT.Proofs.IterPost AT.Proofs.IterLevel AT.Proofs.IterC05 AT.Proofs.IterOrder.
 From Coq Require Import Permutation.
 Local Open Scope Z_scope.
 
@@ -51,6 +51,22 @@ Theorem C06_annotate_is_preorder : forall stop ml t d ok,
   map fst (annotate stop ml d ok t) = preorder t.
 Proof. intros stop ml t d ok. exact (IterC05.annotate_preorder stop ml t d ok). Qed.
 Print Assumptions C06_annotate_is_preorder.
+
+(** "in the order of its unrestricted traversal": with distinct node identities
+    the admitted nodes come, for each of the three orders, as that order of the
+    WHOLE tree filtered by admittedness *)
+Theorem C06_order_pre : forall stop ml t, NoDup (preorder t) ->
+  flat_map preorder (prune stop ml 0 t) = filter (mem (IterOrder.admitted stop ml t)) (preorder t).
+Proof. exact IterOrder.order_pre. Qed.
+Print Assumptions C06_order_pre.
+Theorem C06_order_post : forall stop ml t, NoDup (preorder t) ->
+  flat_map postorder (prune stop ml 0 t) = filter (mem (IterOrder.admitted stop ml t)) (postorder t).
+Proof. exact IterOrder.order_post. Qed.
+Print Assumptions C06_order_post.
+Theorem C06_order_level : forall stop ml t, NoDup (preorder t) ->
+  concat (levels_forest (prune stop ml 0 t)) = filter (mem (IterOrder.admitted stop ml t)) (levelorder t).
+Proof. exact IterOrder.order_level. Qed.
+Print Assumptions C06_order_level.
 
 (** all five visit the same nodes (as multisets) *)
 Theorem C06_same_set : forall f stop ml t,
